@@ -2,14 +2,14 @@
 import numpy as np
 import impl
 from gen import grid, data, material, special
-from .common import tolist
+from .common import tolist, exceeds
 
 LEAN = "PystogVerif.Props.C15"
 ENTRIES = ["Transformer._low_x_correction", "Transformer.fourier_transform", "Transformer.S_to_G", "Transformer.F_to_g"]
 RULE = ("random Q grid starting at Qmin>0 (or exactly 0 in 15%), S(Q) data, r grid (with r=0 in 40%), Lorch on/off, density; the "
         "added term (with minus without OmittedXrangeCorrection) is compared with (2/pi) int_0^Qmin Q[S_lin(Q)-1] w(Q) sin(Qr) dQ "
         "by 400-point Gauss-Legendre quadrature, for all four input and three output functions; non-trivial = Qmin>0 and >= 3 Q points")
-DIST = ["lorch", "qmin0", "out", "inp", "uniform", "smin_is_1"]
+DIST = ["lorch", "qmin0", "out", "inp", "uniform", "smin_is_1", "pole"]
 SHRINK = None
 _GL = np.polynomial.legendre.leggauss(400)
 
@@ -21,6 +21,13 @@ def gen(rng, i, tier):
     s, _ = data(rng, q, kind=str(rng.choice(["noise", "smooth", "const"])), base=1.0)
     s = special(rng, s, base=1.0, p=0.3)   # S exactly 1 at some points, often at Qmin: Q[S-1], F_K, DCS-<b_tot^2> exactly 0 there
     r, _ = grid(rng, n=int(rng.integers(2, 12)), zero=bool(rng.random() < 0.4), hi=float(rng.uniform(2, 12)))
+    pole = False
+    if rng.random() < 0.3:
+        # output points at and next to r = pi/Qmax, where the Lorch-damped closed form of the original StoG is 0/0
+        # (e.g. the first point of a sine-transform-matched grid: Q_max = pi/dr)
+        a = np.pi / float(q[-1])
+        r = np.unique(np.concatenate([r, [a, a * (1 + 1e-12), a - 1e-9, a + 1e-7, a - 1e-6, a + 1e-5, a * (1 - 1e-4)]]))
+        pole = True
     uniform = bool(rng.random() < 0.35) and not qmin0
     if uniform:
         q = np.linspace(q[0], q[-1], len(q))
@@ -28,7 +35,7 @@ def gen(rng, i, tier):
     if not qmin0 and not uniform and len(q) > 6 and rng.random() < 0.3:
         k = int(rng.integers(1, len(q) // 2))
         win = float(q[k] - rng.uniform(0.1, 0.9) * (q[k] - q[k - 1]))  # strictly between two grid points
-    return dict(q=tolist(q), s=tolist(s), r=tolist(r), lorch=bool(rng.random() < 0.5), qmin0=qmin0, kw=material(rng), uniform=uniform, xmin=win, smin_is_1=bool(s[0] == 1.0),
+    return dict(q=tolist(q), s=tolist(s), r=tolist(r), lorch=bool(rng.random() < 0.5), qmin0=qmin0, kw=material(rng), uniform=uniform, xmin=win, smin_is_1=bool(s[0] == 1.0), pole=pole,
                 nr=int(rng.integers(2, 30)), delr=float(rng.uniform(0.02, 0.4)),
                 out=str(rng.choice(["G", "g", "GK"])), inp=str(rng.choice(["S", "F", "FK", "DCS"])), s2scale=float(rng.uniform(0.5, 2)))
 
@@ -75,15 +82,19 @@ def evaluate(case):
     pos = r > 0
     qmin, qmax, smin = float(q_eff[0]), float(q_eff[-1]), float(s_eff[0])
     if qmin == 0.0:
-        if np.abs(added).max() > 1e-12 * max(1.0, float(np.abs(Goff).max())):
+        if exceeds(np.abs(added).max(), 1e-12 * max(1.0, float(np.abs(Goff).max()))):
             fails.append("added term is not zero although Qmin = 0")
         return fails
     exp = model_term(qmin, smin, qmax, r, case["lorch"])
     sc = max(float(np.abs(exp).max()), float(np.abs(Goff).max()) * 1e-3, 1e-300)
-    if np.abs(added - exp)[pos].max(initial=0.0) > 1e-7 * sc + 1e-9 * float(np.abs(Goff).max()):
+    if not np.isfinite(added[pos]).all():
+        k = int(np.argmax(~np.isfinite(added) & pos))
+        fails.append(f"{inp}_to_{out}: the corrected transform is not finite at r={r[k]!r} (Qmax={qmax!r}, pi/Qmax={np.pi / qmax!r}); "
+                     f"the transform of the linear-to-zero model there is {exp[k]!r}")
+    elif exceeds(np.abs(added - exp)[pos].max(initial=0.0), 1e-7 * sc + 1e-9 * float(np.abs(Goff).max())):
         k = int(np.argmax(np.abs(added - exp) * pos))
         fails.append(f"{inp}_to_{out}: added term {added[k]!r} at r={r[k]!r} differs from the transform of the linear-to-zero model {exp[k]!r}")
-    if (~pos).any() and out == "G" and np.abs(added[~pos]).max() > 1e-12 * max(1.0, sc):
+    if (~pos).any() and out == "G" and exceeds(np.abs(added[~pos]).max(), 1e-12 * max(1.0, sc)):
         fails.append("added term does not vanish at r = 0")
     # depends on the data only through Qmin, S(Qmin) (and Qmax with Lorch)
     s2 = s.copy()
@@ -96,7 +107,7 @@ def evaluate(case):
         Gon2 = v_on if out == "G" else getattr(cv, f"{out}_to_G")(r, v_on, **kw)[0]
         Goff2 = v_off if out == "G" else getattr(cv, f"{out}_to_G")(r, v_off, **kw)[0]
     added2 = np.asarray(Gon2, dtype=float) - np.asarray(Goff2, dtype=float)
-    if np.abs(added2 - added)[pos].max(initial=0.0) > 1e-9 * max(float(np.abs(Goff).max()), float(np.abs(Goff2).max()), sc):
+    if exceeds(np.abs(added2 - added)[pos].max(initial=0.0), 1e-9 * max(float(np.abs(Goff).max()), float(np.abs(Goff2).max()), sc)):
         fails.append("added term changes when interior data change (must depend on Qmin, S(Qmin), Qmax only)")
     # compiled reference routine (uniform grids; its r grid is n*delr, never 0)
     if case.get("uniform"):
@@ -107,7 +118,7 @@ def evaluate(case):
             with np.errstate(all="ignore"):
                 _, gP, _ = tr.S_to_g(q, s, rF, OmittedXrangeCorrection=True, **kw)
             scg = max(1.0, float(np.abs(gF - 1).max()))
-            if np.abs(np.asarray(gP) - gF).max() > 1e-9 * scg:
+            if exceeds(np.abs(np.asarray(gP) - gF).max(), 1e-9 * scg):
                 fails.append(f"S_to_g with the omitted-range correction differs from the compiled Fortran stog_bit by {np.abs(np.asarray(gP) - gF).max():.3g}")
     return fails
 
